@@ -52,6 +52,7 @@ type universe struct {
 	sigs                   map[txKey][]byte
 	byHash                 map[common.Hash]txKey
 	hashOf                 map[txKey]common.Hash
+	slotsOf                map[txKey]int // transactions that occupy more than one 32 KiB slot (bigprobe only)
 }
 
 func fatal(err error) {
@@ -78,7 +79,11 @@ func grindKey(tag string) (*ecdsa.PrivateKey, common.Address) {
 }
 
 func newUniverse(na, maxNonce, maxPrice int) *universe {
-	u := &universe{NA: na, MaxNonce: maxNonce, MaxPrice: maxPrice,
+	return newUniverseSlots(na, maxNonce, maxPrice, nil)
+}
+
+func newUniverseSlots(na, maxNonce, maxPrice int, slotsOf map[txKey]int) *universe {
+	u := &universe{NA: na, MaxNonce: maxNonce, MaxPrice: maxPrice, slotsOf: slotsOf,
 		addrIdx: map[common.InternalAddress]int{}, sigs: map[txKey][]byte{},
 		byHash: map[common.Hash]txKey{}, hashOf: map[txKey]common.Hash{}}
 	u.cfg = *params.Blake3PowLocalChainConfig
@@ -114,6 +119,11 @@ func newUniverse(na, maxNonce, maxPrice int) *universe {
 
 func (u *universe) inner(k txKey) *types.QuaiTx {
 	to := u.to
+	if s := u.slotsOf[k]; s > 1 {
+		data := make([]byte, (s-1)*32*1024+1024) // zero bytes: 4 gas each
+		return &types.QuaiTx{ChainID: new(big.Int).Set(u.cfg.ChainID), Nonce: uint64(k.N), GasPrice: new(big.Int).Mul(gwei, big.NewInt(int64(k.P))),
+			Gas: txGas + 4*uint64(len(data)) + 1000, To: &to, Value: new(big.Int), Data: data}
+	}
 	return &types.QuaiTx{
 		ChainID:  new(big.Int).Set(u.cfg.ChainID),
 		Nonce:    uint64(k.N),
@@ -259,17 +269,21 @@ func (c *stubChain) StateAt(root, etxRoot common.Hash, quaiStateSize *big.Int) (
 func (c *stubChain) SubscribeChainHeadEvent(ch chan<- core.ChainHeadEvent) event.Subscription {
 	return c.feed.Subscribe(ch)
 }
-func (c *stubChain) IsGenesisHash(hash common.Hash) bool                               { return false }
-func (c *stubChain) CheckIfEtxIsEligible(hash common.Hash, loc common.Location) bool   { return true }
-func (c *stubChain) Engine(header *types.WorkObjectHeader) consensus.Engine            { return nil }
-func (c *stubChain) GetHeaderOrCandidateByHash(h common.Hash) *types.WorkObject        { return c.GetBlockByHash(h) }
-func (c *stubChain) NodeCtx() int                                                      { return common.ZONE_CTX }
-func (c *stubChain) GetHeaderByHash(h common.Hash) *types.WorkObject                   { return c.GetBlockByHash(h) }
-func (c *stubChain) GetMaxTxInWorkShare() uint64                                       { return 1000 }
-func (c *stubChain) CheckInCalcOrderCache(common.Hash) (*big.Int, int, bool)           { return nil, 0, false }
-func (c *stubChain) AddToCalcOrderCache(common.Hash, int, *big.Int)                    {}
-func (c *stubChain) CalcBaseFee(*types.WorkObject) *big.Int                            { return big.NewInt(0) }
-func (c *stubChain) CalcOrder(*types.WorkObject) (*big.Int, int, error)                { return big.NewInt(0), common.ZONE_CTX, nil }
+func (c *stubChain) IsGenesisHash(hash common.Hash) bool                             { return false }
+func (c *stubChain) CheckIfEtxIsEligible(hash common.Hash, loc common.Location) bool { return true }
+func (c *stubChain) Engine(header *types.WorkObjectHeader) consensus.Engine          { return nil }
+func (c *stubChain) GetHeaderOrCandidateByHash(h common.Hash) *types.WorkObject {
+	return c.GetBlockByHash(h)
+}
+func (c *stubChain) NodeCtx() int                                            { return common.ZONE_CTX }
+func (c *stubChain) GetHeaderByHash(h common.Hash) *types.WorkObject         { return c.GetBlockByHash(h) }
+func (c *stubChain) GetMaxTxInWorkShare() uint64                             { return 1000 }
+func (c *stubChain) CheckInCalcOrderCache(common.Hash) (*big.Int, int, bool) { return nil, 0, false }
+func (c *stubChain) AddToCalcOrderCache(common.Hash, int, *big.Int)          {}
+func (c *stubChain) CalcBaseFee(*types.WorkObject) *big.Int                  { return big.NewInt(0) }
+func (c *stubChain) CalcOrder(*types.WorkObject) (*big.Int, int, error) {
+	return big.NewInt(0), common.ZONE_CTX, nil
+}
 func (c *stubChain) GetBlockByHash(h common.Hash) *types.WorkObject {
 	c.mu.RLock()
 	defer c.mu.RUnlock()
@@ -574,26 +588,26 @@ type harness struct {
 	chain *stubChain
 	pool  *core.TxPool
 
-	mu        sync.Mutex
-	cond      *sync.Cond
-	events    []*poolEvent // top-level events (sub-events folded in)
-	removed   [][3]int     // removeTx sub-events since the last top-level event
-	owed      map[int]bool
-	poolHead  int // block id the pool last reset to
-	lastSent  int // block id of the last head event sent
-	inflight  int64
-	prev      *absState
-	vmu       sync.Mutex
-	viols     []violation
-	nEvents   map[string]int
-	lastQ     uint64 // seq of the last quiescent run
-	runs      uint64 // completed runs
-	evictHold bool   // replay: set the lifetime back after the next eviction tick
-	inRun     bool            // between reorgBegin and reorg
-	reinj     map[[3]int]bool // transactions the current run re-injected (accepted or not)
-	holed     map[int]bool    // accounts whose pending list has the known reorg hole
-	runAdds   []*poolEvent
-	dropNoop  bool   // do not record tick runs that change nothing
+	mu           sync.Mutex
+	cond         *sync.Cond
+	events       []*poolEvent // top-level events (sub-events folded in)
+	removed      [][3]int     // removeTx sub-events since the last top-level event
+	owed         map[int]bool
+	poolHead     int // block id the pool last reset to
+	lastSent     int // block id of the last head event sent
+	inflight     int64
+	prev         *absState
+	vmu          sync.Mutex
+	viols        []violation
+	nEvents      map[string]int
+	lastQ        uint64          // seq of the last quiescent run
+	runs         uint64          // completed runs
+	evictHold    bool            // replay: set the lifetime back after the next eviction tick
+	inRun        bool            // between reorgBegin and reorg
+	reinj        map[[3]int]bool // transactions the current run re-injected (accepted or not)
+	holed        map[int]bool    // accounts whose pending list has the known reorg hole
+	runAdds      []*poolEvent
+	dropNoop     bool       // do not record tick runs that change nothing
 	lastQEv      *poolEvent // the last quiescent run (recorded or not)
 	lastSeq      uint64
 	noRecord     bool           // keep counters only (long soak runs)
